@@ -1740,6 +1740,11 @@ def opaque_method(interp, ref, o: HOpaque, name, args, kwargs, node):
         if name in ("read_text", "read_bytes"):
             interp.log("file.read", node, path=ref)
             return Sym((name, ref.oid), "str")
+        if name in ("mkdir", "touch", "unlink", "rename", "replace", "write_text", "write_bytes", "rmdir", "chmod", "stat", "resolve", "iterdir"):
+            # anything that touches the file system can fail (missing parent, a file in the way, permissions)
+            may_raise(interp, node, "OSError", (name, ref.oid))
+            interp.log("file." + name, node, path=ref, args=tuple(args))
+            return Const(None) if name not in ("stat", "resolve", "iterdir") else Sym((name, ref.oid))
     if t == "file":
         if name in ("read", "write", "close"):
             interp.log("file." + name, node, obj=ref, args=tuple(args))
@@ -1759,7 +1764,9 @@ def obj_getattr(interp, ref, o, attr, node):
             return o.attrs[attr]
         if o.typ == "RC2" and attr == "cost":
             return Sym(("rc2cost", o.attrs.get("last_model", Const(0)).value), "int")
-        if o.typ == "Path" and attr in ("suffix", "name", "stem", "parent"):
+        if o.typ == "Path" and attr == "parent":
+            return interp.alloc(HOpaque("Path", {"of": Sym(("parent", ("path", desc(o.attrs.get("of", Const(None)))) ), "str")}))
+        if o.typ == "Path" and attr in ("suffix", "name", "stem"):
             of = o.attrs.get("of", Const(None))
             if isinstance(of, Const) and isinstance(of.value, str):
                 import pathlib as _pl
